@@ -10,7 +10,7 @@ ENTRIES = ["Transformer.fourier_transform", "Transformer.G_to_F", "Transformer.F
 RULE = ("random strictly increasing input grid (uniform / jittered / irregular / centi-lattice, 2..60 points, thorough ..600), "
         "random output grid that always contains 0, a negative point and a repeated point, data family, second data vector "
         "and coefficients for linearity; non-trivial = >= 3 input points and data not all zero")
-DIST = ["grid", "data"]
+DIST = ["grid", "data", "has_fortran"]
 SHRINK = None
 
 
@@ -21,8 +21,14 @@ def gen(rng, i, tier):
     z, _ = data(rng, x)
     xo, _ = grid(rng, n=int(rng.integers(1, 10)) + 1)
     xo = np.concatenate([[0.0, -float(xo[-1]) / 3, float(xo[0])], xo])
+    fort = None
+    if rng.random() < 0.3:
+        nq = int(rng.integers(3, 60))
+        q0, dq = float(rng.uniform(0.1, 1.0)), float(rng.uniform(0.02, 0.3))
+        fort = dict(q=tolist(q0 + dq * np.arange(nq)), s=tolist(1 + data(rng, np.arange(nq, dtype=float), kind="smooth")[0]),
+                    nr=int(rng.integers(2, 25)), delr=float(rng.uniform(0.02, 0.4)), rho=float(10 ** rng.uniform(-2, 0)))
     return dict(x=tolist(x), y=tolist(y), z=tolist(z), xo=tolist(xo), a=float(rng.normal()), b=float(rng.normal() * 3),
-                grid=gk, data=dk)
+                grid=gk, data=dk, fort=fort, has_fortran=fort is not None)
 
 
 def weights(x):
@@ -71,6 +77,20 @@ def evaluate(case):
     _, f2g, _ = tr.F_to_G(x, y, xo)
     if np.abs(np.asarray(f2g) - v * 2 / np.pi).max() > 1e-12 * sc:
         fails.append("F_to_G is not (2/pi) * core transform")
+    ft = case.get("fort")
+    if ft:
+        import fortran
+        from .c15 import model_term
+        q, sq = arr(ft["q"]), arr(ft["s"])
+        ref = fortran.stog_bit(q, sq, ft["nr"], ft["delr"], ft["rho"], False)
+        if ref is not None:
+            rF, gF = ref
+            yds = model_term(float(q[0]), float(sq[0]), float(q[-1]), rF, False)
+            g_no_lowq = gF - yds / (4 * np.pi * ft["rho"] * rF)
+            _, gP, _ = tr.S_to_g(q, sq, rF, rho=ft["rho"])
+            scg = max(1.0, float(np.abs(g_no_lowq - 1).max()))
+            if np.abs(np.asarray(gP) - g_no_lowq).max() > 1e-8 * scg:
+                fails.append(f"S_to_g differs from the compiled Fortran stog_bit (analytic low-Q term removed) by {np.abs(np.asarray(gP) - g_no_lowq).max():.3g}")
     return fails
 
 
